@@ -282,7 +282,8 @@ func ruleLineage(c *core.Ctx, rule string, want func(name string) bool) {
 	levels := flagLevels(decls)
 	n := 0
 	for _, fr := range collectFlagReads(c.P) {
-		if fr.Name == "" || len(levels[fr.Name]) < 2 || !want(fr.Name) {
+		// nested levels: the application and at least one command (sibling commands sharing a name do not nest)
+		if fr.Name == "" || len(levels[fr.Name]) < 2 || !levels[fr.Name][""] || !want(fr.Name) {
 			continue
 		}
 		n++
